@@ -2,9 +2,15 @@
 
 Tie between the Lean theorem (C03.serializable: protected operations are atomic under every
 schedule) and the code:
-  (i)  translator: AST of LRI/LRU -> Generated/C03_CacheLocks.lean (which methods touch cache state,
-       which run wholly under `with self._lock`, which dict mutators are not overridden);
-       Lean re-proves `all_state_methods_protected` / `no_inherited_mutators` by `decide` every run;
+  (i)  translator (class LockAnalysis): AST of LRI/LRU -> Generated/C03_CacheLocks.lean: per public method the raw
+       references (private state / C-level dict mutators / bare cache; cache operations invoked) each with
+       "inside a lock region?" and "in a loop?", where a lock region is `with self._lock:` (or a local alias),
+       `self._lock.acquire(); try: ... finally: self._lock.release()`, a locking decorator, or a call of a private
+       helper that is itself wholly locked; where `self._lock` is assigned and with what; which lock-requiring helpers are reachable
+       outside a region; which dict mutators are not overridden.  Lean recomputes the judgement from the raw
+       references and re-proves `lock_discipline_from_refs`, `all_state_methods_protected`, `public_methods_atomic`,
+       `lock_created_once_reentrant`, `helpers_only_under_lock`, `no_inherited_mutators` by `decide` every run;
+       the methods it rejects become the targets of the intensified (focus) search;
   (ii) acceptance: real threads under the deterministic opcode-level scheduler (bv/sched.py); at every
        entry of a ring helper the running thread must own the cache's lock (dynamic lock-set);
   (iii) correspondence: the observed run (results of every locked operation + final contents + final
@@ -153,6 +159,8 @@ class LockAnalysis:
     Lock regions of a function:   `with self._lock:` (or a local alias of it) body;
                                   `self._lock.acquire()` immediately followed by `try: … finally: self._lock.release()`
                                   (try body, handlers and else-branch; the finally block up to the release);
+                                  a method decorated with a module-level decorator whose wrapper is
+                                  `with self._lock: return fn(self, …)` (the whole body);
                                   a call `self._h(args)` of a private helper that is itself *self-locking* (has a
                                   region and touches nothing outside it) - bound methods of self passed as arguments
                                   are allowed if the helper uses the parameter only inside its own region.
@@ -169,6 +177,10 @@ class LockAnalysis:
         self._lockmap = {}
         self._self_locking = {}
         self._oprefs = {}
+        self.locking_decorators = set()
+        for node in tree.body:
+            if isinstance(node, ast.FunctionDef) and self._is_locking_decorator(node):
+                self.locking_decorators.add(node.name)
         self.lock_assigned_in = []
         self.lock_ctors = []
         for cname in ('LRI', 'LRU'):
@@ -187,6 +199,30 @@ class LockAnalysis:
                                         self.lock_ctors.append(v.func.attr)
                                     else:
                                         self.lock_ctors.append('?')
+
+    @staticmethod
+    def _is_locking_decorator(dec):
+        """def dec(fn): def wrapper(self, *a, **kw): with self._lock: return fn(self, *a, **kw) ; return wrapper"""
+        if len(dec.args.args) != 1:
+            return False
+        fname = dec.args.args[0].arg
+        inner = [n for n in dec.body if isinstance(n, ast.FunctionDef)]
+        if len(inner) != 1 or not inner[0].args.args:
+            return False
+        w = inner[0]
+        sname = w.args.args[0].arg
+        body = [b for b in w.body if not (isinstance(b, ast.Expr) and isinstance(b.value, ast.Constant))]
+        if len(body) != 1 or not isinstance(body[0], ast.With):
+            return False
+        wi = body[0]
+        if not any(isinstance(it.context_expr, ast.Attribute) and it.context_expr.attr == '_lock' and
+                   isinstance(it.context_expr.value, ast.Name) and it.context_expr.value.id == sname for it in wi.items):
+            return False
+        calls_fn = any(isinstance(n, ast.Call) and isinstance(n.func, ast.Name) and n.func.id == fname and n.args and
+                       isinstance(n.args[0], ast.Name) and n.args[0].id == sname for b in wi.body for n in ast.walk(b))
+        returns_wrapper = any(isinstance(n, ast.Return) and isinstance(n.value, ast.Name) and n.value.id == w.name
+                              for n in dec.body)
+        return calls_fn and returns_wrapper
 
     # ---- method resolution
     def resolve(self, cname, mname):
@@ -292,6 +328,10 @@ class LockAnalysis:
                     for h in getattr(st, 'handlers', []) or []:
                         stmts(h.body)
                 i += 1
+        if any(isinstance(d, ast.Name) and d.id in self.locking_decorators for d in fn.decorator_list):
+            m['forms'].add('decorator')         # the whole call runs inside the decorator's `with self._lock:`
+            for b in fn.body:
+                mark(b)
         stmts(fn.body)
         # delegation to a self-locking private helper
         for n in ast.walk(fn):
@@ -500,11 +540,16 @@ class C03(Property):
     PID = 'C03'
     QUICK_BUDGET_S = 40
     THOROUGH_BUDGET_S = 800
-    RULE = ('a case = cache class, max_size, on_miss, initial content, 2-3 thread programs of 1-3 public-API '
-            'operations each, and a schedule (every choice of the opcode-level scheduler: systematic '
-            'single/double pre-emption placements or a seeded random walk). Non-trivial = at least one '
-            'pre-emption happened while some thread was inside a cache operation (a thread blocked on the '
-            'lock or was switched out mid-operation); distinct = distinct (programs, realised schedule).')
+    RULE = ('a case = cache class, max_size (1-3), on_miss, initial content, 2-3 thread programs of 1-3 public-API operations '
+            'each (20 kinds: item get/set/del, get, pop, popitem, setdefault, clear, update from pairs / a mapping / another '
+            'cache, |=, ==, !=, copy, copy observed through dict order + class + capacity + eviction order, len / in / keys), '
+            'and a schedule = every choice of the opcode-level scheduler: a single (thorough: double) pre-emption placed at a '
+            'given instruction, a focus schedule (victim thread pre-empted at its k-th instruction INSIDE a given method, the '
+            'other threads then run as far as they get), or a seeded sticky random walk. Families: 19 fixed conflict programs '
+            'x placements, every public method of the translator table as focus victim against evicting / deleting / clearing '
+            'adversaries, random programs. Non-trivial = at least one pre-emption happened while some thread was inside a '
+            'cache operation (a thread blocked on the lock or was switched out mid-operation); distinct = distinct '
+            '(programs, realised schedule).')
     ASSUMPTIONS = ['CPython pre-empts threads only between bytecode instructions (GIL); C-level dict '
                    'operations are atomic', 'threading.RLock is a correct re-entrant lock (replaced by a '
                    'scheduler-aware equivalent in the harness)', 'free-threaded builds are out of scope']
@@ -689,13 +734,16 @@ class C03(Property):
         # (2) every public method of the translator's table as the victim of a pre-emption at its k-th own
         #     instruction, against an evicting / deleting / clearing second thread
         table = [(r['cls'], r['name']) for r in (self._analysis.rows() if getattr(self, '_analysis', None) else [])]
-        yield from self.focus_cases(table, full=self.thorough, stride=1 if self.thorough else 3)
+        if not self.thorough:
+            yield from self.focus_cases(table, full=False, stride=3)
         # (3) random programs (2-3 threads) x sticky random walks
         n = 150 if not self.thorough else 3000
         for i in range(n):
             base = self.rand_programs(rng, rng.choice([2, 2, 3]), 2 if i % 3 else 3)
             yield from self.schedules_for(base, rng, systematic=(self.thorough and i % 10 == 0),
                                           nrandom=6 if not self.thorough else 12)
+        if self.thorough:       # the largest family last: all sizes, keys, adversaries, every k (may be cut by the budget)
+            yield from self.focus_cases(table, full=True, stride=1)
 
     # ---- directed search: pre-empt INSIDE the methods the translator reports as not (wholly) protected
     @staticmethod
